@@ -33,6 +33,24 @@ CLAIMS = {
              "so this is complete, not bounded. The three 'consequently' clauses are lemmas over the spec.",
         note=BPFVC_TRUST + "; the EL7041 PDO layout is fixed as in contracts/c26_motor.py; 64-bit products of "
              "non-constants are uninterpreted in the proof (lemma L-MUL ties them to the mathematical product)"),
+    "C27": dict(
+        engine="pyvc", category="proof", design_ref="DESIGN.md section 4 C27",
+        technique="contract-based deductive verification: step contract on the real source of Valve.update/reset "
+                  "(booleans, real-valued clock), VCs from the AST, z3",
+        text="Valve.update and Valve.reset are proved against the step contract written from the property for all "
+             "switch readings, targets, clock values, moving times and both safe-state settings; the history "
+             "statement is the invariant this step contract establishes after a reset.",
+        note=PYVC_TRUST + "; TerminalVar/DeviceVar behave as plain boolean fields (assumed, C19/C08); monotonic clock"),
+    "C14": dict(
+        engine="pyvc", category="proof", design_ref="DESIGN.md section 4 C14",
+        technique="contract-based deductive verification: the real source of Terminal.to_operational/get_state "
+                  "against protocol obligations at every bus write (ghost state in the bus contract), loop "
+                  "invariant for polling, z3",
+        text="For every start state, error flag, target, and any number of polls per transition (loop invariant, "
+             "no bound) the requests written to AL control follow the property's order/acknowledge/confirmation "
+             "clauses, the coroutine returns only at or above the target and raises exactly on an error during "
+             "the walk. Termination of polling is not claimed.",
+        note=PYVC_TRUST + "; environment contract of the bus: valid AL state codes, arbitrary otherwise"),
 }
 
 NA = {
